@@ -986,10 +986,10 @@ HDR_REGIONS = [HDR_WRITE,
                            prologue='\tint ret;\n\tblock_off_t blockmax = *blockmax_p;', epilogue='\t*blockmax_p = blockmax;')]
 
 
-def header_obs():
+def header_obs(pin=False):
     fn = ["state_write_thread: region version choice + header records z x y c C (cmdline/state.c, extracted mechanically)",
           "state_read_content: branches of the 'c', 'C', 'z', 'y', 'x' records (cmdline/state.c, extracted mechanically)"]
-    return [Ob('state.header.roundtrip', 'harness/h_header.c', 'h_header_roundtrip', inject=HDR_REGIONS, unwind=18, small_path=True, timeout=900, mem=6, cost=3, functions=fn,
+    return [Ob('state.header.roundtrip', 'harness/h_header.c', 'h_header_roundtrip', inject=HDR_REGIONS, defs=({'VERIF_PIN_FORMAT': None} if pin else {}), unwind=18, small_path=True, timeout=900, mem=6, cost=3, functions=fn,
                note='every block size, stripe count, hash size 2..32, hash kind, previous hash kind or none, seeds, 1..2 parity levels with 1..SPLIT_MAX splits, with and without configuration (-C); byte codecs by typed recording stubs (units stream.rt*)'),
             Ob('state.header.damaged', 'harness/h_header.c', 'h_header_damaged', inject=HDR_REGIONS, unwind=18, small_path=True, timeout=900, mem=6, cost=3, functions=fn[1:],
                note='one header record with arbitrary sub-letter / 32-bit value / short read against every configuration: refused exactly when not usable')]
@@ -1386,7 +1386,7 @@ def c08(tier, seed):
 def c16(tier, seed):
     """format stability = every constant / encoding is pinned to a definition that is not in the repo"""
     c17 = [o for o in PROPS['C17']['obligations'](tier, seed) if o.name in ('parity.split_find.contract', 'parity.split_find.lemma')]
-    return table_obs(tier) + crc_obs(tier) + stream_obs(['h_sgetb32', 'h_sgetb64', 'h_sgetble32', 'h_sgetbs', 'h_rt32', 'h_rt64', 'h_rtle32', 'h_rtbs']) + staterec_obs(tier) + elem_obs(tier) + c17 + hash_obs(tier) + main_obs()[:1] + frecord_obs() + blockruns_obs() + header_obs() + maprec_obs() + holeruns_obs() + linkrec_obs() + parityrec_obs() + [o for o in check_obs(tier) if o.name == 'check.blockcmp']
+    return table_obs(tier) + crc_obs(tier) + stream_obs(['h_sgetb32', 'h_sgetb64', 'h_sgetble32', 'h_sgetbs', 'h_rt32', 'h_rt64', 'h_rtle32', 'h_rtbs']) + staterec_obs(tier) + elem_obs(tier) + c17 + hash_obs(tier) + main_obs()[:1] + frecord_obs() + blockruns_obs() + header_obs(pin=True) + maprec_obs() + holeruns_obs() + linkrec_obs() + parityrec_obs() + [o for o in check_obs(tier) if o.name == 'check.blockcmp']
 
 
 def c04(tier, seed):
